@@ -34,7 +34,12 @@ Definition field_of_sx (s : sx) : option field :=
       do st' <- getBool st; do dv' <- getBool dv; do a <- getLA ap; do t <- mapo tok_of_sx tks;
       do y <- mapo syn_of_sx sy; do vv <- vec_of_sx vc;
       Some {| f_name := nm; f_stored := st'; f_dv := dv'; f_typ := ty; f_val := v; f_ap := a; f_len := ln;
-              f_toks := t; f_syn := y; f_vec := vv |}
+              f_toks := t; f_syn := y; f_vec := vv; f_shape := None |}
+  | L [B nm; st; dv; A ty; B v; ap; A ln; L tks; L sy; vc; L [B sh]] =>        (* a geo-shape field *)
+      do st' <- getBool st; do dv' <- getBool dv; do a <- getLA ap; do t <- mapo tok_of_sx tks;
+      do y <- mapo syn_of_sx sy; do vv <- vec_of_sx vc;
+      Some {| f_name := nm; f_stored := st'; f_dv := dv'; f_typ := ty; f_val := v; f_ap := a; f_len := ln;
+              f_toks := t; f_syn := y; f_vec := vv; f_shape := Some sh |}
   | _ => None
   end.
 Definition doc_of_sx (s : sx) : option doc :=
